@@ -19,7 +19,7 @@ META = {
         "stim's parser/flattened() is trusted; expected order is the operation listing with sub-circuits expanded in place and repeated their count",
     ],
     "floors": {
-        "quick": {"instructions_compared": 40000, "detector_shape_1": 100, "detector_shape_2": 100, "detector_shape_3": 100, "detector_shape_4": 100,
+        "quick": {"deep_chains_exported": 3, "deep_repeated_bodies_unrolled": 2, "instructions_compared": 40000, "detector_shape_1": 100, "detector_shape_2": 100, "detector_shape_3": 100, "detector_shape_4": 100,
                   "detector_shape_5": 100, "unsupported_omitted": 2000, "before_after_unroll": 3000, "library_before_after": 40, "repeat_blocks": 500, "exports_after_field_edit": 500, "programs_with_zero_count": 100},
         "thorough": {"instructions_compared": 400000, "before_after_unroll": 30000, "library_before_after": 300},
     },
@@ -37,6 +37,8 @@ def plan(tier: str, seed: int) -> List[Dict[str, Any]]:
     total = 4000 if tier == "quick" else 50000
     shards = common.split_shards("gen", total, 15, seed, 8, classes=["allkinds", "allkinds", "measure", "nested"])
     shards.append({"kind": "library", "n": 60 if tier == "quick" else 400, "seed": common.seed_base(seed, 88), "hashseed": 0})
+    for k in range(2 if tier == "quick" else 6):
+        shards.append({"kind": "deep", "n": 5, "tier": tier, "seed": common.seed_base(seed, 880 + k), "hashseed": 0})
     return shards
 
 
@@ -215,6 +217,13 @@ def check_program(prog: Dict[str, Any], acc: Acc, flags=None):
         if prog.get("has_zero_count"):
             acc.count("programs_with_zero_count")
             return
+        if prog.get("deep") and _unrolled_size(prog["circuit"]) > 280:
+            # relation chains beyond ~300 operations cannot be unrolled (copying recurses through the by-value hash of the chain): the
+            # as-built export above is what a deep chain is checked on
+            acc.count("deep_chains_exported")
+            acc.count("deep_chain_operations", len(ops))
+            memo_shadow.drain()
+            return
         # before / after unrolling: same multiset of instructions, same number of measurements
         n_meas = sc.num_measurements
         top_reps = circuit.circuit_structure.nr_of_repetitions
@@ -223,6 +232,8 @@ def check_program(prog: Dict[str, Any], acc: Acc, flags=None):
         if sc2 is None:
             return
         acc.count("before_after_unroll")
+        if prog.get("deep"):
+            acc.count("deep_repeated_bodies_unrolled")
         got2 = stim_stream(sc2)
         want2 = got * top_reps       # the top-level count is not exported before unrolling (only sub-circuits are repeated)
         if sorted(map(repr, got2)) != sorted(map(repr, want2)):
@@ -234,6 +245,35 @@ def check_program(prog: Dict[str, Any], acc: Acc, flags=None):
                         {"before": n_meas, "after": sc2.num_measurements})
         compare(acc, case, "unrolled", got2, expected_stream(modified.circuit_structure, None))
     memo_shadow.drain()
+
+
+def _unrolled_size(circ: Dict[str, Any]) -> int:
+    r = circ.get("reps", 1)
+    r = r if isinstance(r, int) else 3
+    return max(1, r) * sum(_unrolled_size(st["sub"]) if "sub" in st else 1 for st in circ["steps"])
+
+
+def gen_deep(rng: random.Random, tier: str, index: int = 0) -> Dict[str, Any]:
+    """Deep shapes (seeded changes C08-r12 / C09-r12: the graph walk's safety bound lowered, everything deeper silently dropped): one
+    relation chain of hundreds to thousands of exportable operations, or a short body repeated until the unrolled chain is > 200 deep."""
+    kinds = ["Rx180", "Ry90", "Rym90", "Identity", "DispersiveMeasure", "Reset", "Rx90"]
+
+    def leaf(nq):
+        k = rng.choice(kinds)
+        st = {"k": k, "q": [rng.randrange(nq)]}
+        if k == "DispersiveMeasure":
+            st["tag"] = ""
+        return st
+
+    if index % 5 in (1, 3):
+        body = rng.choice([2, 3])
+        reps = rng.randint(210 // body + 1, 270 // body)
+        circ = {"reps": 1, "steps": [leaf(1), {"sub": {"reps": reps, "steps": [leaf(1) for _ in range(body)]}}, leaf(1)]}
+    else:
+        length = rng.choice([250, 600, 1500] + ([4000] if tier == "thorough" else [2500]))
+        nq = rng.choice([1, 1, 2])
+        circ = {"reps": 1, "steps": [leaf(nq) for _ in range(length)]}
+    return {"class": "deep", "deep": True, "circuit": circ, "settings": {}}
 
 
 def c05_has_annotation(circ: Dict[str, Any]) -> bool:
@@ -273,6 +313,13 @@ def run_shard(shard: Dict[str, Any]) -> Acc:
             acc.hist("class", "library/" + inp["constructor"])
             acc.case(bp.phash(inp), inp["cycles"] >= 2, sample=inp if i < 3 else None)
             common.guarded(acc, check_library, inp, acc, case={"library": inp})
+        return acc
+    if shard["kind"] == "deep":
+        for i in range(shard["n"]):
+            prog = gen_deep(rng, shard.get("tier", "quick"), i)
+            acc.hist("class", "deep")
+            acc.case(bp.phash(prog), True, sample=None)
+            common.guarded(acc, check_program, prog, acc, {}, case={"program": prog})
         return acc
     classes = shard["classes"]
     for i in range(shard["n"]):
